@@ -350,11 +350,29 @@ func c13Counters(p *load.Program, r *oblig.Report) {
 		r.Lost(rule, "kafka.(*LeastBytes).Balance")
 		return
 	}
-	strict := false
+	strict, running := false, false
+	runningWhy := "no comparison of a counter with the minimum found"
 	for _, b := range an.Blocks(lb) {
 		_, ci := an.IfCond(b)
 		if ci != nil && (ci.Op == token.LSS || ci.Op == token.LEQ) && strings.HasSuffix(an.Shape(ci.X), ".bytes") {
 			strict = true
+			// the value compared against is the running minimum: it is carried around the loop and, when it is a
+			// variable of its own, the counter that was just found smaller is one of its updates
+			y := clean(an.Shape(ci.Y))
+			running = strings.Contains(y, "φ")
+			runningWhy = "compared against " + y
+			if ph, isPhi := ci.Y.(*ssa.Phi); isPhi && running {
+				upd := false
+				for _, e := range ph.Edges {
+					if e == ci.X || clean(an.Shape(e)) == clean(an.Shape(ci.X)) {
+						upd = true
+					}
+				}
+				running = upd
+				if !upd {
+					runningWhy += ", which is never updated with " + clean(an.Shape(ci.X))
+				}
+			}
 		}
 	}
 	okAdd := false
@@ -367,6 +385,7 @@ func c13Counters(p *load.Program, r *oblig.Report) {
 		}
 	})
 	r.Check(strict && okAdd, "C13.R5 least-bytes selection", "LeastBytes.Balance picks a minimum and charges the message's key and value bytes to it", p.Pos(lb.Pos()), "if c.bytes < (or <=) minBytes {…}; c.bytes += uint64(len(Key)) + uint64(len(Value))", fmt.Sprintf("strictLess=%v addsKeyAndValue=%v", strict, okAdd))
+	r.Check(running, "C13.R5 least-bytes selection", "LeastBytes.Balance compares every counter with the running minimum", p.Pos(lb.Pos()), "if c.bytes < minBytes { minIndex, minBytes = …, c.bytes }", runningWhy)
 }
 
 func c13Murmur(p *load.Program, r *oblig.Report) {
